@@ -72,8 +72,10 @@ def divisible_by_var(p: Poly, v):
     return all(any(x == v for x, _ in m) for m in p.t)
 
 
-def check_euclid(world: World, f):
-    """returns list of (key, ok, detail).  f(a, n): inverse of a modulo n with inv0(0) = 0"""
+def check_euclid(world: World, f, total=True):
+    """returns list of (key, ok, detail).  f(a, n): inverse of a modulo n with inv0(0) = 0.
+    total: the routine is handed unreduced operands (field division by an int): zero is every multiple of n.  With total=False
+    the routine is only claimed on residues 0 <= a < n (secp256k1.inv: its callers hand it reduced coordinates, C18/C19)"""
     res = []
     a, n = ZSym(Poly.var("a")), ZSym(Poly.var("n"))
     info = {}
@@ -135,6 +137,17 @@ def check_euclid(world: World, f):
             ev["kind"] == "zmod" and (ev["modulus"] - Poly.var("n")).is_zero()
             and (ev["value"] - ev["modulus"] * ev["quotient"] - low0).is_zero() for ev in it.events)
         info["residue"] = info.get("residue", True) and is_res
+        # … and a zero residue must have been excluded on this path: a test `x == 0` (false here) on a value x that is itself
+        # the residue of a modulo n (low0, or another `… % n` congruent to it)
+        resid = {repr(ev["value"] - ev["modulus"] * ev["quotient"]) for ev in it.events
+                 if ev["kind"] == "zmod" and (ev["modulus"] - Poly.var("n")).is_zero()
+                 and low0 is not None and divisible_by_var(ev["value"] - low0, "n")}
+        excluded = [at.args[1] for at, tv in it.facts.items() if isinstance(at, Term) and at.op == "zcmp" and at.args[2] == "0"
+                    and ((at.args[0] == "==" and tv is False) or (at.args[0] == "!=" and tv is True))]
+        zt = any(x in resid for x in excluded)
+        info["ztest"] = info.get("ztest", True) and zt
+        if not zt:
+            info.setdefault("ztest_detail", f"zero excluded for {excluded or 'nothing'}; residues of a modulo n on the path: {sorted(resid) or 'none'}")
         if not is_res:
             info.setdefault("residue_detail", f"low starts as {low0!r} on path {' '.join(w for _c, w in it.oracle.trace) or '(straight)'}")
         # arbitrary state satisfying the invariant
@@ -180,6 +193,9 @@ def check_euclid(world: World, f):
                 f"{len(early)} early-return path(s)" + (f"; {len(other)} path(s) neither return 0 early nor the loop result: "
                                                          f"{other[0].outcome} {show(other[0].value)[:60]}" if other else "")))
     res.append(("invariant lm·a ≡ low, hm·a ≡ high (mod n) holds initially", info.get("init") is True, ""))
+    if total:
+      res.append(("a zero residue cannot enter the loop: the zero test is made on a % n, not on the raw argument (a non-zero multiple of n is a zero too)",
+                  info.get("ztest") is True, info.get("ztest_detail", "")))
     res.append(("low enters the loop as a residue a % n in [1, n−1] (a negative or unreduced start would leave the loop with low ≠ 1)",
                 info.get("residue") is True, info.get("residue_detail", "")))
     res.append(("invariant preserved by the loop body for every quotient", info.get("preserved") is True, ""))
